@@ -4,13 +4,13 @@ The prompt contains ONLY the property's text and the worktree path (nothing from
 import json, subprocess, sys, os
 pid = sys.argv[1]
 tag = sys.argv[2] if len(sys.argv) > 2 else ""
-ROUND2 = tag.startswith("-r2")
+ROUND2 = tag.startswith(("-r2", "-r3"))
 import glob
 prev = []
 if ROUND2:
     for mp in sorted(glob.glob(f"/verif/seeded/{pid}-*/meta.json")):
         prev.append((json.load(open(mp)).get("summary") or "")[:260])
-NUMS = "4,5,6" if ROUND2 and prev else "1,2,3"
+NUMS = ("7,8,9" if tag.startswith("-r3") else "4,5,6") if ROUND2 and prev else "1,2,3"
 wt = f"/tmp/seed/{pid}{tag}"
 props = {json.loads(l)["id"]: json.loads(l) for l in open("/verif/properties.jsonl")}
 p = props[pid]
@@ -20,7 +20,7 @@ os.makedirs(wt + "/_seed", exist_ok=True)
 print(f"""You are helping to evaluate a verification tool for the Python project pkgcore (a Gentoo package manager framework). Your job: produce realistic *bugs* (mutations) that break one stated property of pkgcore while slipping past the existing test suite.
 
 Work ONLY inside the git worktree {wt} (a checkout of pkgcore at the pinned commit). Do NOT read, list or modify anything under /repo or /verif. Run Python as `/venv/bin/python` and ALWAYS with `PYTHONPATH={wt}/src` so that the worktree's code is imported (without it the wrong copy is imported). The test suite is run as:
-  cd {wt} && PYTHONPATH={wt}/src /venv/bin/python -m pytest -q -p no:cacheprovider --timeout=900 -x --basetemp=/tmp/seed/bt-$$ --deselect tests/ebuild/test_eapi.py::TestEAPI::test_system_bash_supports_bundled_eapis
+  cd {wt} && PYTHONPATH={wt}/src /venv/bin/python -m pytest -q -p no:cacheprovider --timeout=900 -x --basetemp=/tmp/seed/bt-{pid}{tag}-$$ --deselect tests/ebuild/test_eapi.py::TestEAPI::test_system_bash_supports_bundled_eapis
 (~15 s; that one deselected test fails on the clean tree already.) There is no network.
 
 THE PROPERTY ({pid}): {p['title']}
